@@ -951,6 +951,8 @@ static const char* end_of_printed_string(const char* src)
         }
         if(*src == '"' && src[1] == '\\') {
             skip_fmt_null(&src, "\"\\ \"%n");
+            if(!src)
+                return NULL; // backslash, but no continued string
             cont = true;
         }
         else
